@@ -521,6 +521,8 @@ def judge_xml(pid):
                     v.append(('SPECFAIL', 'c09:all-zero-%s' % name, ''))
                 if f['repeat']:
                     v.append(('SPECFAIL', 'c09:repeated-%s' % name, f['hex']))
+                if f.get('constant_positions'):
+                    v.append(('SPECFAIL', 'c09:constant-bytes-%s' % name, 'byte positions %s of the %d-byte value never varied over the draws of this run (last %s)' % (f['constant_positions'], f['len'], f['hex'])))
         if pid == 'C12' and sub == 'hostile':
             if isinstance(save, str) and save.startswith('panic'):
                 v.append(('SPECFAIL', 'c12:%s:save-panics' % feat, save))
